@@ -34,7 +34,7 @@ CLAIMED = {
             "state = state at the chosen revision, deletion => absent, choosing the winner changes nothing, commit + propagation gives identical state, independent resolutions converge. Found the "
             "resolve-to-deletion defect (fixed).", "DESIGN.md §5 C07"),
     "C08": ("Partial. Single client thread: every lock acquisition of the MIR is tracked; re-acquiring a held Mutex/RwLock (self-deadlock) or any panic on well-formed input is a violation. Every public operation "
-            "in seven kinds of state (empty, staged, committed with deletions, object + array conflicts pending, staged resolutions, after time travel, array dropped on one side). Found three defects (fixed). "
+            "in eight kinds of state (empty, staged, committed with deletions, object + array conflicts pending, staged resolutions, after time travel, array dropped on one side, a block held back in storage). Found three defects (fixed). "
             "Worker-pool sizes / real interleavings are not applicable to this technique.", "DESIGN.md §5 C08, §6"),
     "C09": ("Melda level with a harness-side fault-injecting backend around the real MemoryAdapter: 1-2 failing writes inside a commit (incl. the same write failing on the retry; retry or unstage + identical "
             "edit) leave the stage and the view intact, the result is as durable as an uninterrupted commit and transferable by meld, a block never precedes its pack, and reopening at EVERY write boundary of "
